@@ -12,7 +12,7 @@
      -> S <id> r<rid>@<op index or ->:<result> ...
    A <id> <quorum> <deposits ';'> <receives ';'>   racing scenario, one receive per full id:
         deposits D,<from>,<nspath>,<cidhex>,<payloadhex>; receives <rid>,<nspath>,<cidhex>,<froms>
-     -> A <id> r<rid>:<result>|<result>...   (every result a check can return at some point of the deposit sequence)
+     -> A <id> r<rid>:<result>;<result>...   (every result a check can return at some point of the deposit sequence)
    E <id> <quorum> <equivocator or 0> <groupA csv> <msgs id=hex,..> <m2 hex>
      -> E <id> <party>:<ok[...]|failed> ...
    K  -> K <maxReceiveBufferSize> <notifyCapacity>
@@ -43,7 +43,7 @@ let show_err = function
 
 type rcv = {
   rid : int; rcid : cid; pause : int;
-  mutable parks : int; mutable held : bool; mutable active : bool;
+  mutable parks : int; mutable held : bool; mutable released : bool; mutable active : bool;
   mutable result : string; mutable whenr : int }
 
 let run_schedule (quorum : string) (ops : string list) : string =
@@ -65,7 +65,7 @@ let run_schedule (quorum : string) (ops : string list) : string =
              | Checking ->
                progress := true;
                (match do_step (RecvCheck r.rcid) with
-                | OParked -> r.parks <- r.parks + 1; if r.parks = r.pause then r.held <- true
+                | OParked -> r.parks <- r.parks + 1; if r.parks = r.pause && not r.released then r.held <- true
                 | ORecvOk res -> finish r idx (show_payloads res)
                 | ORecvErr e -> finish r idx (show_err e)
                 | _ -> failwith "unexpected output of RecvCheck")
@@ -83,7 +83,7 @@ let run_schedule (quorum : string) (ops : string list) : string =
      | ["R"; rid; ns; c; froms; pause; pre] ->
        let full = recv_full (nspath_of ns) (bytes_of_hex c) in
        let r = { rid = int_of_string rid; rcid = full; pause = int_of_string pause;
-                 parks = 0; held = false; active = false; result = "parked"; whenr = -1 } in
+                 parks = 0; held = false; released = false; active = false; result = "parked"; whenr = -1 } in
        rcvs := r :: !rcvs;
        (match do_step (RecvEnter (full, ids_of froms)) with
         | OEntered -> r.active <- true; if pre = "1" then ignore (do_step (Cancel full))
@@ -94,7 +94,7 @@ let run_schedule (quorum : string) (ops : string list) : string =
      | ["C"; rid] ->
        List.iter (fun r -> if r.rid = int_of_string rid && r.active then ignore (do_step (Cancel r.rcid))) !rcvs
      | ["U"; rid] ->
-       List.iter (fun r -> if r.rid = int_of_string rid then r.held <- false) !rcvs
+       List.iter (fun r -> if r.rid = int_of_string rid then (r.held <- false; r.released <- true)) !rcvs
      | ["S"] -> ignore (do_step Shutdown)
      | ["E"] -> ignore (do_step ReaderError)
      | ["X"; from] -> ignore (do_step (BadMessage (z_of_string from)))
@@ -137,7 +137,7 @@ let allowed (quorum : string) (deps : string list) (rcvs : string list) : string
         | ORecvErr e -> Some (show_err e)
         | _ -> None) prefixes in
       let outs = List.sort_uniq compare outs in
-      Printf.sprintf "r%s:%s" rid (if outs = [] then "parked" else String.concat "|" outs)
+      Printf.sprintf "r%s:%s" rid (if outs = [] then "parked" else String.concat ";" outs)
     | _ -> failwith ("bad receive " ^ o)) rcvs)
 
 (* echo broadcast with an optional two-faced party: face 1 talks to group A with its
